@@ -960,7 +960,11 @@ func c04() int {
 		return rep.Finish(evid.Coverage{"explanation": "schema not interpretable", "evaluations": 1, "distinct_nontrivial": 0})
 	}
 	ops := c04Ops(rep.Thorough())
-	var states, transitions, unsupported int64
+	var states, transitions, unsupported, httpRequests int64
+	httpDepth := 2
+	if rep.Thorough() {
+		httpDepth = 3
+	}
 	var samples evid.Samples
 	samples.N = 4
 	kinds := evid.NewHistogram()
@@ -999,6 +1003,18 @@ func c04() int {
 							n.bad[kind] = true
 							kinds.Add(kind)
 							rep.Violation(kind+":"+c04Culprit(n.path), why+" [history: "+strings.Join(n.path, " ; ")+"]", replay)
+						}
+					}
+					if why == "" && len(n.path) <= httpDepth {
+						if hk, hw := n.judgeHTTP(&httpRequests); hw != "" {
+							if strings.Contains(hw, "pgmini: unsupported") {
+								atomic.AddInt64(&unsupported, 1)
+								rep.Undecide("interpreter: " + hw)
+							} else if !n.bad[hk] {
+								n.bad[hk] = true
+								kinds.Add(hk)
+								rep.Violation(hk+":"+c04Culprit(n.path), hw+" [history: "+strings.Join(n.path, " ; ")+"]", replay)
+							}
 						}
 					}
 					samples.Offer(func() interface{} { return n.path })
@@ -1046,6 +1062,7 @@ func c04() int {
 		"violation_kinds":               kinds.M,
 		"address_patterns":              nPatterns,
 		"value_filters":                 nValueFilters,
+		"http_requests":                 int(httpRequests),
 		"filtered_reads":                nFilterReads,
 	}
 	rep.Assume = []string{"pgmini's reading of PostgreSQL semantics (SPEC.md in /verif/xverif/lib/pgmini; no PostgreSQL server exists in the sandbox to validate it against)", "account volumes / effective volumes and aggregated balances are executed with and without a point in time (by insertion date resp. effective date); the point-in-time variants of the transaction listings and the volumes of listed accounts are not compared (only their ledger predicate is checked)"}
